@@ -99,7 +99,7 @@ CLAIMED = {
         "DESIGN.md §6 C16",
     ),
     "C17": (
-        "runtime monitor: FixWord Display -> real PL reader -> identical 32 bits for sampled (quick) or ALL 2^32 (thorough) bit patterns, the printed text also compared with a transcription of TFtoPL §40-43; to_scaled vs a literal transcription of TeX §571-572 and a closed form that must agree; compress vs a brute-force oracle over all candidate tolerances; NextLargerProgram vs a functional-graph oracle",
+        "runtime monitor: FixWord Display -> real PL reader -> identical 32 bits for sampled (quick) or ALL 2^32 (thorough) bit patterns, the printed text also compared with a transcription of TFtoPL §40-43; to_scaled vs a literal transcription of TeX §571-572 and a closed form that must agree; compress vs a brute-force oracle over all candidate tolerances; NextLargerProgram vs a functional-graph oracle; libFuzzer stage (thorough tier) for compress and the next-larger program, decided by the same oracles",
         "Held on the executions produced: quick stride-65521 sweep + boundaries + 6e6 random patterns, thorough exhaustive over all 2^32 patterns; all 2^25 storable values at 10pt + random (value, design size) pairs; 49 140 exhaustive + 2e4 / 2e6 random multisets for compress; all 126 125 functional graphs on <=6 characters + random ones on <=256.",
         "The single value -2048.0 is outside PLtoTF's legal range and is reported separately (skipped). Calibrated on 35 542 reals from 34 tftopl-written files.",
         "DESIGN.md §6 C17",
